@@ -25,6 +25,10 @@ Rule == [ls |-> [cat |-> <<99>>, prod |-> <<119,105,110,100,111,119,115>>, svc |
          attrs |-> <<[name |-> <<115,101,118,101,114,105,116,121,95,115,99,111,114,101>>, kind |-> "int", n |-> 5, s |-> <<>>],
                      [name |-> <<108,101,118,101,108>>, kind |-> "level", n |-> 4, s |-> <<>>],
                      [name |-> <<97,117,116,104,111,114>>, kind |-> "str", n |-> 0, s |-> <<109,101>>]>>]
+\* the rule processed by the same pipeline object AFTERWARDS: one detection item the preceding items do not touch, and a
+\* field list whose only entry is - as written by the author - the name the first rule's fieldA was renamed to
+Rule2 == [Rule EXCEPT !.items = <<[field |-> <<102,105,101,108,100,81>>, vals |-> <<VNum(<<1, 1>>)>>, applied |-> <<>>]>>,
+                      !.fields = <<[name |-> fB, applied |-> <<>>]>>]
 \* ---- recorded deviation ------------------------------------------------------------------------
 \* Field-name-level "processing_item_applied" on a DETECTION ITEM's field: field mapping
 \* transformations check the field conditions twice - first against the items applied to the
@@ -76,6 +80,10 @@ Clause(o) ==
          ELSE "GateIff:field-reference")
     ELSE IF \E j \in 1..2 : o.ret.out.fields[j] # ActsOnFieldEntry(o.G, j, Rule) THEN "GateIff:field-list"
     ELSE IF o.ret.out.rule # ActsOnRule(o.G, Rule) THEN "GateIff:rule"
+    \* the second rule: judged like the first, from ITS state (nothing of the first rule's processing is part of it)
+    ELSE IF o.ret.out.second.rule # ActsOnRule(o.G, Rule2) THEN "GateIff:second-rule:rule"
+    ELSE IF o.ret.out.second.items # <<ActsOnItem(o.G, 1, Rule2)>> THEN "GateIff:second-rule:detection-item"
+    ELSE IF o.ret.out.second.fields # <<ActsOnFieldEntry(o.G, 1, Rule2)>> THEN "GateIff:second-rule:field-list"
     ELSE ""
 IsDev(c) == c \in {"dev:Dev_FieldAppliedConditionSecondCheck", "dev:Dev_FieldGroupPrefilterOverReferences"}
 Verdict(o) == LET c == Clause(o) IN [id |-> o.id, v |-> IF c = "" THEN "ok" ELSE IF IsDev(c) THEN c ELSE "violation:" \o c]
